@@ -183,15 +183,16 @@ theorem splitAux_eq (c : UInt8) : ∀ (s : Bytes) (f : Nat) (cur : Bytes), s.len
     rw [splitAux]
     simp only [isPrefixOfB, Bool.and_true, List.length_cons, List.length_nil, Nat.zero_add, List.drop_succ_cons, List.drop_zero]
     by_cases hcx : (c == x) = true
-    · have hxc : (x == c) = true := by simpa [eq_comm] using hcx
+    · have hxc : (x == c) = true := by rw [beq_iff_eq] at hcx ⊢; exact hcx.symm
       rw [if_pos hcx, ih f [] (by omega)]
       rw [splitOn]
-      simp only [hxc, ↓reduceIte, List.reverse_nil, prependHead, List.append_nil]
+      simp only [hxc, ↓reduceIte, List.reverse_nil]
       rw [prependHead_nil _ (splitOn_ne_nil c xs)]
+      simp [prependHead]
     · have hxc : (x == c) = false := by
         cases h : (x == c) with
         | false => rfl
-        | true => exact absurd (by simpa [eq_comm] using h) hcx
+        | true => rw [beq_iff_eq] at h; exact absurd (by rw [beq_iff_eq]; exact h.symm) hcx
       rw [if_neg hcx, ih f (x :: cur) (by omega), splitOn_cons_ne c x xs hxc,
         prependHead_prependHead _ _ _ (splitOn_ne_nil c xs)]
       simp
@@ -233,9 +234,11 @@ theorem atoi_nil : atoi [] = atoiCore false [] := rfl
 theorem atoi_other (c : UInt8) (r : Bytes) (h1 : c ≠ 43) (h2 : c ≠ 45) : atoi (c :: r) = atoiCore false (c :: r) := by
   unfold atoi atoiCore
   split
-  · rename_i heq; cases heq; exact absurd rfl h1
-  · rename_i heq; cases heq; exact absurd rfl h2
-  · rfl
+  rename_i heq
+  split at heq
+  · rename_i h; simp at h; exact absurd h.1 h1
+  · rename_i h; simp at h; exact absurd h.1 h2
+  · cases heq; rfl
 
 /-- `strconv.Atoi` succeeds exactly when the model's `parseInt64` does, with the same value -/
 theorem atoi_spec (s : Bytes) :
